@@ -72,6 +72,14 @@ var rArgUsed = &Rule{
 					}
 					n++
 					used := valueUses(v, prm, map[ssa.Value]bool{}, 0)
+					if !used && emptyAddsNothing[name][prm.Name()] {
+						// the documented 'empty prefix' case: the return sits under the test that this parameter is empty
+						for _, l := range dominatingLits(ret.Block()) {
+							if zeroTestOf(l, prm) {
+								used = true
+							}
+						}
+					}
 					c.Check(used, fmt.Sprintf("%s: parameter %s reaches the result", name, prm.Name()), ret.Pos(), "the returned wrapper is computed from the parameter",
 						fmt.Sprintf("on the path returning at %s the result does not depend on the parameter %s: that part of the requested annotation is dropped for the inputs that take this path", p.Pos(ret.Pos()), prm.Name()))
 				}
@@ -79,6 +87,36 @@ var rArgUsed = &Rule{
 		}
 		c.Min("(constructor return, parameter) pairs", n, 80)
 	},
+}
+
+// emptyAddsNothing: constructors documented to add nothing for an empty message ("the cause text alone when the
+// prefix is empty"): a return that sits under the test 'this parameter is empty' may be independent of it.
+var emptyAddsNothing = map[string]map[string]bool{
+	"errutil.WrapWithDepth":  {"msg": true},                  // Wrap(err, ""): the stack only, no prefix
+	"errutil.WrapWithDepthf": {"format": true, "args": true}, // Wrapf(err, ""): the stack only, no prefix
+}
+
+// zeroTestOf: the literal says that prm is the empty string / has length zero.
+func zeroTestOf(l lit, prm *ssa.Parameter) bool {
+	bin, ok := l.V.(*ssa.BinOp)
+	if !ok || !((bin.Op == token.EQL && !l.Neg) || (bin.Op == token.NEQ && l.Neg)) {
+		return false
+	}
+	for _, pair := range [][2]ssa.Value{{bin.X, bin.Y}, {bin.Y, bin.X}} {
+		if pair[0] == ssa.Value(prm) {
+			if k, isK := sx.ConstString(pair[1]); isK && k == "" {
+				return true
+			}
+		}
+		if call, isCall := pair[0].(*ssa.Call); isCall {
+			if b, isB := call.Call.Value.(*ssa.Builtin); isB && b.Name() == "len" && len(call.Call.Args) == 1 && call.Call.Args[0] == ssa.Value(prm) {
+				if k, isK := sx.ConstInt(pair[1]); isK && k == 0 {
+					return true
+				}
+			}
+		}
+	}
+	return false
 }
 
 func paramIndex(fn *ssa.Function, prm *ssa.Parameter) int {
